@@ -1570,6 +1570,9 @@ def swarm_config(seed, faults):
         "groups": groups,
         "directed_p": rnd.choice((0.0, 0.3, 0.5, 0.8)),
         "repeat_p": rnd.choice((0.0, 0.1, 0.1, 0.3)),
+        # swarm focus: in 40 % of the runs one randomly chosen operation is made ten times as likely, so that rare
+        # operations (and rare *pairs* of identical calls to them) get deep histories of their own
+        "focus": (rnd.choice(sorted(OPS)) if rnd.random() < 0.4 else None),
         "fault_rate": (rnd.choice((0.05, 0.15, 0.4)) if faults else 0.0),
         "fault_kinds": (rnd.choice((["F-gesdd"], ["F-gesdd", "F-kernel"], ["F-gesdd", "F-kernel", "F-stdout"], ["F-kernel"], ["F-stdout"]))
                         if faults else []),
@@ -1674,7 +1677,9 @@ def _choose(ctx):
     if ctx.history and rnd.random() < cfg.get("repeat_p", 0.0):
         # the same call once more, with identical arguments (same sub-seed => same generated data): results of two
         # identical calls must be independent objects (caches, memoised cores, module-level state)
-        prev, serials = rnd.choice(ctx.history)
+        # builders / constructors without TT inputs are where caches hide: prefer repeating those
+        hw = [5.0 if not (h[0].get("in") or {}) else 1.0 for h in ctx.history]
+        prev, serials = rnd.choices(ctx.history, hw)[0]
         spec = OPS.get(prev["op"])
         if spec is not None and not (spec["inplace"](prev) if callable(spec["inplace"]) else spec["inplace"]) \
                 and serials == ctx.serials(prev):
@@ -1685,7 +1690,10 @@ def _choose(ctx):
             run.probes["repeated_call"] += 1
             return rec
     names = list(OPS)
-    weights = [OPS[n]["weight"] * cfg["groups"].get(OPS[n]["group"], 1.0) for n in names]
+    weights = [OPS[n]["weight"] * cfg["groups"].get(OPS[n]["group"], 1.0) * (10.0 if n == cfg.get("focus") else 1.0)
+               for n in names]
+    if cfg.get("focus") and not any(weights):
+        weights = [1.0] * len(names)
     for _ in range(12):
         n = rnd.choices(names, weights)[0]
         rec = OPS[n]["choose"](ctx)
@@ -1740,6 +1748,7 @@ def replay(records, keep_events=False, clock_seed=None):
 
 # ====================================================================== runner interface
 NAME = "pool"
+FORK_PER_RUN = True   # every history starts in a process image in which scikit_tt has never run (runner.forked_call)
 RULE = ("one history = 3-40 seeded API calls over a pool of up to 6 live tensor trains (results are fed back as operands; "
         "documented in-place sweeps and overwrite=True variants are interleaved; with probability directed_p the scheduler "
         "picks an in-place op whose sweep starts at a core that is shared with another live object); per-run swarm "
